@@ -265,7 +265,16 @@ where
             // check for termination due to slow progress and update strategy
             if isdone{
                     match self.strategy_checkpoint_insufficient_progress(scaling){
-                        StrategyCheckpoint::NoUpdate | StrategyCheckpoint::Fail => {break}
+                        StrategyCheckpoint::NoUpdate => {break}
+                        StrategyCheckpoint::Fail => {
+                            // the iterate just reported was discarded in favour of the
+                            // previous one.  Print the restored figures so that the last
+                            // line of the progress table describes the returned solution.
+                            notimeit!{timers; {
+                                self.info.print_status(&self.settings).unwrap();
+                            }}
+                            break
+                        }
                         StrategyCheckpoint::Update(s) => {scaling = s; continue}
                     }
             }  // allows continuation if new strategy provided
